@@ -203,6 +203,10 @@ HANDLE_METHODS = (
 MUTATING_FS = ("create_file", "delete_file", "rename_file", "append_file", "replace_file", "create_directory", "remove_directory")
 
 
+def _raw_fs(nm, decl):
+    return nm.startswith(PATH_FS_PREFIXES) and nm not in HANDLE_METHODS and (decl or "") not in HANDLE_METHODS
+
+
 def _options_chain(e):
     """Builder method names (with constant args) applied in an OpenOptions chain."""
     out = []
@@ -243,7 +247,7 @@ def c01_w(ctx):
         for b, t in f.all_calls():
             d, r, _ = ctx.prog.callee_of(t)
             nm = r or d or ""
-            if nm.startswith(PATH_FS_PREFIXES) and nm not in HANDLE_METHODS and (d or "") not in HANDLE_METHODS:
+            if _raw_fs(nm, d or ""):
                 raw += 1
                 yield bad("C01-W", "%s->%s" % (short(f.root or f.norm), nm), at(f, t["span"]["line"]), "path-taking filesystem API %s called in cfdp-daemon outside the FileStore trait" % nm)
     yield ok("C01-W", "daemon:no-raw-fs", "cfdp-daemon (all %d bodies)" % len(daemon), "0 path-taking std::fs/tokio::fs calls", nontrivial=True)
